@@ -22,7 +22,7 @@ SomeBounded(cfg) == \E b \in BusNames(cfg) : MaxHist(cfg, b) > 0
 
 CompletionClauses == {"C03.hang", "C03.incomplete", "C03.not_completed", "C10.incomplete", "C04.incomplete", "C04.raised"}
 
-Classify(cfg, o, w) ==
+ClassifyBase(cfg, o, w) ==
   CASE w.c = "C05.unrelated" /\ w.k = "in"                                   -> "F0"
     \* the drain goes on although nothing of the awaited tree is left to process: only when a recorded finding lost that tree's completion
     [] w.c = "C05.unrelated" /\ w.k = "in_nothing_left" /\ (Sub(o, w.a) \cap EvOf(StrandedR(cfg, o))) # {}                 -> "F2"
@@ -33,6 +33,8 @@ Classify(cfg, o, w) ==
     [] w.c = "C01.missing" /\ <<w.b, w.e, "Cancelled">> \in o.procX /\ (\E tk \in o.take : tk[1] = w.b /\ tk[2] = w.e /\ ~tk[4])
        /\ (\E i \in ResOf(o.snap[w.e], w.h, w.b) : o.snap[w.e].res[i].err \in {"Cancelled:pending", "Cancelled:interrupted"})   -> "F0"
     [] w.c = "C04.incomplete" /\ w.k = "held"                                -> "F1"
+    \* an await that returned an incomplete child for a recorded reason (F1, F2, F4, F11 ...) also lets unrelated handlers run before the child
+    \* is done: same finding (but not when the child was awaited at once and nothing else was drained first: "early_held_immediate")
     [] w.c = "C02.fifo" /\ w.k = "in"                                        -> "G1"
     [] w.c \in {"C06.overlap", "C02.serial"} /\ w.k = "parsib"               -> "G9"
     [] w.c = "C16.start_after_stop" /\ w.k = "in"                            -> "G2"
@@ -49,4 +51,12 @@ Classify(cfg, o, w) ==
     [] w.c \in {"C03.hang", "C03.not_completed", "C03.incomplete", "C04.incomplete"} /\ w.k \in {"", "completed", "processed"} /\ SomeBounded(cfg) /\
        \E d \in Sub(o, w.e) : ~o.snap[d].sig /\ o.snap[d].res # <<>> /\ ResDone(o.snap[d]) /\ InNoHistory(o, d) -> "F11"
     [] OTHER                                                                 -> ""
+\* an await that returned an incomplete child for a recorded reason (F1, F2, F4, F11 ...) also lets unrelated handlers start before that child
+\* is done (C05.unrelated, k = "early_other"): the same finding explains it.  Not so when the child was awaited at once and nothing else was
+\* drained first (k = "early_held_immediate").
+Classify(cfg, o, w) ==
+  IF w.c = "C05.unrelated" /\ w.k = "early_other"
+  THEN LET S == {ClassifyBase(cfg, o, v) : v \in {u \in o.wit : u.c = "C04.incomplete" /\ u.e \in Sub(o, w.a)}} \ {""}
+       IN IF S = {} THEN "" ELSE CHOOSE x \in S : TRUE
+  ELSE ClassifyBase(cfg, o, w)
 =============================================================================
